@@ -80,11 +80,19 @@ class SdpTask:
             mats, coords = sym_variables(b, prog.vars)
             P = program_to_sym(prog, coords)
             V = VarMap(prog.vars, mats)
-            R = self.reference(V, self.instance)
-            res = t1_equiv(ctx, P, R)
+            try:
+                R = self.reference(V, self.instance)
+            except (KeyError, ValueError, IndexError) as e:
+                # the captured program does not even have the decision variables of the definition's program (renamed, missing,
+                # different shape): a T1 mismatch like any other - the numeric replay below decides whether the value moved
+                R = None
+                res = {"ok": False, "detail": [f"the reference program cannot be written over the captured variables "
+                                               f"{[(v.name, list(v.shape)) for v in prog.vars]}: {type(e).__name__}: {e}"]}
+            else:
+                res = t1_equiv(ctx, P, R)
             rec["reachable"] = res.get("reachable")
             # negative control: a reference with one constraint dropped (or a perturbed objective) must NOT be proved equal
-            if R.constraints:
+            if R is not None and R.constraints:
                 R2 = SymProgram(R.sense, R.objective, R.constraints[:-1])
                 r2 = t1_equiv(ctx, P, R2)
                 rec["neg_control"] = not r2["ok"]
@@ -101,7 +109,7 @@ class SdpTask:
         rec["disagreements_checked"] = 1
         try:
             got = self.value_of(self.call())
-            want = self.replay_oracle(self.instance) if self.replay_oracle else solve_reference(R, ctx)
+            want = self.replay_oracle(self.instance) if self.replay_oracle else (solve_reference(R, ctx) if R is not None else None)
         except Exception as e:  # noqa: BLE001
             rec["notes"].append(f"replay failed: {type(e).__name__}: {e}")
             return
